@@ -25,11 +25,18 @@ def floors(tier):
 
 def plan(seed, tier):
     n = 14 if tier == "quick" else 160
-    return [{"id": f"wire-{seed}-{i}", "seed": seed * 100003 + i} for i in range(n)]
+    cases = [{"id": f"wire-{seed}-{i}", "seed": seed * 100003 + i} for i in range(n)]
+    # APIs that define RPCs named like mixin RPCs themselves while the service YAML lists the mixin: the API's own RPC is the one called
+    cases += [{"id": f"wire-own-iam-{seed}-{i}", "seed": seed * 100003 + 7000 + i, "own_iam": True} for i in range(max(3, n // 5))]
+    return cases
 
 
 def build_api(case):
     rng = random.Random(case["seed"])
+    if case.get("own_iam"):
+        own = rng.choice([["GetIamPolicy"], ["SetIamPolicy", "TestIamPermissions"], ["SetIamPolicy", "GetIamPolicy", "TestIamPermissions"]])
+        return apigen.mixin_api(rng, "r%d" % (case["seed"] % 100000), rng.choice([["iam"], ["iam", "locations"], ["operations", "iam"]]), "all",
+                                own_iam=own, transport="grpc", annex=["before", "after", None][case["seed"] % 3])
     api = apigen.wellformed(rng, "r%d" % (case["seed"] % 100000))
     if rng.random() < 0.6 and "foreign-request" not in api.tags:
         rng2 = random.Random(case["seed"] + 1)
